@@ -155,6 +155,18 @@ def run(ctx):
         m = min(m, n + 1)
         prob, mu = gen_qp(rng, n, m)
         x0 = [rng.choice([-3.0, 3.0, 0.0, 10.0]) + rng.dyadic(-1, 1, 2) for _ in range(n)]   # usually infeasible
+        if k % 5 == 4:
+            # start with an exactly zero gradient that is NOT the minimiser: box-constrained problem whose unconstrained minimiser x0
+            # (c := -Q x0, so grad f(x0) = 0 exactly) lies outside the variable bounds
+            prob, mu = gen_qp(rng, n, 0)
+            m = 0
+            x0 = [rng.dyadic(-2, 2, 2) for _ in range(n)]
+            prob.c = [-sum(prob.Q[i][j] * x0[j] for j in range(n)) for i in range(n)]
+            prob.Clb[0], prob.Cub[0] = x0[0] + 0.5, x0[0] + 2.0
+        elif k % 5 == 3:
+            # some gradient components exactly zero at the start
+            for i in range(0, n, 2):
+                prob.c[i] = -sum(prob.Q[i][j] * x0[j] for j in range(n))
         for solver, direction in sl.STACKS:
             modes = ["alm"] if m > 0 else ["alm", "inner"]
             for mode in modes:
